@@ -1,6 +1,8 @@
 package server
 
 import (
+	"net/netip"
+
 	"github.com/osrg/gobgp/v4/internal/pkg/table"
 	"github.com/osrg/gobgp/v4/pkg/config/oc"
 	"github.com/osrg/gobgp/v4/pkg/packet/bgp"
@@ -216,5 +218,60 @@ func VH_c15_sequence() {
 	w2 := c15new(last, true)
 	w2.feed(lens)
 	c15same(w1, w2, true)
+	vReach("end")
+}
+
+// C15 (defined sets): the import policy rejects the prefixes of a prefix set; the set is replaced
+// through RoutingPolicy.AddDefinedSet(replace) - the call behind the AddDefinedSet API - and the soft
+// reset in runs. The Loc-RIB must equal a fresh evaluation with the new set.
+func c15setPolicy(members [2]bool) (*oc.RoutingPolicy, map[string]oc.ApplyPolicy) {
+	rp := &oc.RoutingPolicy{}
+	ps := oc.PrefixSet{PrefixSetName: "ps1"}
+	for i, in := range members {
+		if in {
+			ps.PrefixList = append(ps.PrefixList, oc.Prefix{IpPrefix: netip.MustParsePrefix([]string{"10.1.0.0/16", "10.2.0.0/16"}[i]), MasklengthRange: "16..24"})
+		}
+	}
+	rp.DefinedSets.PrefixSets = []oc.PrefixSet{ps}
+	st := oc.Statement{Name: "s1"}
+	st.Conditions.MatchPrefixSet.PrefixSet = "ps1"
+	st.Conditions.MatchPrefixSet.MatchSetOptions = oc.MATCH_SET_OPTIONS_RESTRICTED_TYPE_ANY
+	st.Actions.RouteDisposition = oc.ROUTE_DISPOSITION_REJECT_ROUTE
+	rp.PolicyDefinitions = []oc.PolicyDefinition{{Name: "p1", Statements: []oc.Statement{st}}}
+	ap := oc.ApplyPolicy{}
+	ap.Config.ImportPolicyList = []string{"p1"}
+	ap.Config.DefaultImportPolicy, ap.Config.DefaultExportPolicy = oc.DEFAULT_POLICY_TYPE_ACCEPT_ROUTE, oc.DEFAULT_POLICY_TYPE_ACCEPT_ROUTE
+	return rp, map[string]oc.ApplyPolicy{table.GLOBAL_RIB_NAME: ap}
+}
+
+func c15worldWithSet(members [2]bool) *c15world {
+	fams := []bgp.Family{bgp.RF_IPv4_UC}
+	w := &c15world{s: vServer(65000, fams), view: map[string]*table.Path{}}
+	rp, ap := c15setPolicy(members)
+	if err := w.s.policy.Reset(rp, ap); err != nil {
+		panic(err)
+	}
+	w.a = vEstablished(w.s, vNeighbor(2, 65001, 65000, fams), fams)
+	w.t = vEstablished(w.s, vNeighbor(4, 65003, 65000, fams), fams)
+	return w
+}
+
+func VH_c15_defined_set() {
+	old := [2]bool{vBool("old_has_prefix"), vBool("old_has_prefix")}
+	cur := [2]bool{vBool("new_has_prefix"), vBool("new_has_prefix")}
+	vAssume(old[0] || old[1])
+	vAssume(cur[0] || cur[1])
+	lens := [2]int{1, 2}
+	w1 := c15worldWithSet(old)
+	w1.feed(lens)
+	rp, _ := c15setPolicy(cur)
+	set, err := table.NewPrefixSet(rp.DefinedSets.PrefixSets[0])
+	vAssert(err == nil, "prefix set refused")
+	vAssert(w1.s.policy.AddDefinedSet(set, true) == nil, "replacing a defined set failed")
+	vAssert(w1.s.softResetIn("", bgp.RF_IPv4_UC) == nil, "soft reset failed")
+	w1.drain()
+	w2 := c15worldWithSet(cur)
+	w2.feed(lens)
+	c15same(w1, w2, false)
 	vReach("end")
 }
